@@ -12,10 +12,12 @@ import Driver.Archive
 import Driver.Unit
 import Driver.Command
 import Driver.Junit
+import Driver.Attempts
 namespace Driver
 
 def dispatch (line : String) : String :=
   match line.trimAscii.toString.splitOn " " with
+  | "attempts" :: rest => (handleAttempts rest).getD "bad-op"
   | "junit" :: rest => (handleJunit rest).getD "bad-op"
   | "shjoin" :: rest => (handleShJoin rest).getD "bad-op"
   | "shsplit" :: rest => (handleShSplit rest).getD "bad-op"
